@@ -932,6 +932,22 @@ def histories(ctx):
                 seq.append(mk(r, c, f, rng.choice(['cdelt', 'cd', 'cdrot']), ['hdu', 'file', 'path'][(n + rep) % 3],
                               rng.choice(['random', 'nodal']), rng.randint(0, 10 ** 6)))
             run_sequence(ctx, seq)
+    # round 9: the SAME original shape and the same compressed shape under DIFFERENT factors
+    # (ceil(n / f1) == ceil(n / f2)): shape + compressed shape do not determine the factor
+    for rep in range(2 if ctx.quick else 8):
+        for _try in range(50):
+            n, m = rng.randint(8, 40), rng.randint(8, 40)
+            f1 = rng.randint(2, 12)
+            alts = [g for g in range(2, 13) if g != f1 and -(-n // g) == -(-n // f1) and -(-m // g) == -(-m // f1)]
+            if alts:
+                break
+        else:
+            continue
+        f2 = rng.choice(alts)
+        kind = rng.choice(['cdelt', 'cd', 'cdrot'])
+        seq = [mk(n, m, [f1, f2][k % 2], kind, ['hdu', 'file', 'path'][(k + rep) % 3], rng.choice(['random', 'nodal']),
+                  rng.randint(0, 10 ** 6)) for k in range(4)]
+        run_sequence(ctx, seq)
     # the seeder's own pair
     run_sequence(ctx, [mk(41, 37, 5, 'cdelt', 'hdu', 'random', 1), mk(43, 38, 5, 'cdelt', 'hdu', 'random', 2),
                        mk(41, 37, 5, 'cdelt', 'file', 'nodal', 3)])
